@@ -1,32 +1,266 @@
 import RulesModel.Model.LexSep
 /-!
-# The JsonQuery token table the proofs were written against (DESIGN §4.1, T1)
-`Generated.lexerRules` (rewritten from parser/JsonQuery.g4 on every run) is tied to this table in Proofs/Tie.lean.
+# The tables the proofs were written against (DESIGN §4.1)
+
+Frozen copies of what /verif/extract produced from the tree the model was transcribed from.
+`Generated.*` (rewritten from /repo on every run) is tied to these in `RulesModel/Tie/*.lean`.
 -/
 namespace Rules
 open Regex
 
-def digit : Regex := rng '0' '9'
-def alpha : Regex := alts [rng 'A' 'Z', rng 'a' 'z']
-def nameChar : Regex := alts [ch '-', ch '_', ch ':', digit, alpha]
-def int : Regex := alts [ch '0', .seq (rng '1' '9') (.star digit)]
-def exp : Regex := .seq (alts [ch 'E', ch 'e']) (.seq (opt (alts [ch '+', ch '-'])) int)
-def hex : Regex := alts [digit, rng 'a' 'f', rng 'A' 'F']
-def esc : Regex := .seq (ch '\\') (alts [alts ("\"\\/bfnrt".toList.map ch), .seq (ch 'u') (.seq hex (.seq hex (.seq hex hex)))])
-def strRe : Regex := .seq (ch '"') (.seq (.star (alts [esc, .notIn ['"'.toNat, '\\'.toNat]])) (ch '"'))
-
+/-- token rules of parser/JsonQuery.g4 in priority order (implicit literals first) -/
 def jqRules : List (Kind × Regex) := [
-  (1, lit "("), (2, lit ")"), (3, lit "pr"), (4, lit "."), (5, lit "-"), (6, lit "["), (7, lit "]"),
-  (8, alts [lit "not", lit "NOT"]), (9, alts [lit "and", lit "or"]), (10, alts [lit "true", lit "false"]), (11, lit "null"),
-  (12, alts [lit "IN", lit "in"]), (13, alts [lit "eq", lit "EQ", lit "=="]), (14, alts [lit "ne", lit "NE", lit "!="]),
-  (15, alts [lit "gt", lit "GT", lit ">"]), (16, alts [lit "lt", lit "LT", lit "<"]),
-  (17, alts [lit "ge", lit "GE", lit ">="]), (18, alts [lit "le", lit "LE", lit "<="]),
-  (19, alts [lit "co", lit "CO"]), (20, alts [lit "sw", lit "SW"]), (21, alts [lit "ew", lit "EW"]),
-  (22, .seq alpha (.star nameChar)),
-  (23, .seq int (.seq (ch '.') (.seq int (.seq (ch '.') int)))),
-  (24, strRe),
-  (25, .seq (opt (ch '-')) (.seq int (.seq (ch '.') (.seq (plus digit) (opt exp))))),
-  (26, int), (27, exp), (28, ch '\n'), (29, .seq (ch ',') (.star (ch ' '))), (30, .seq (ch ' ') (.star (ch '\n')))]
+  (1, (.range 40 40)),
+  (2, (.range 41 41)),
+  (3, (.seq (.range 112 112) (.range 114 114))),
+  (4, (.range 46 46)),
+  (5, (.range 45 45)),
+  (6, (.range 91 91)),
+  (7, (.range 93 93)),
+  (8, (.alt (.seq (.range 110 110) (.seq (.range 111 111) (.range 116 116))) (.seq (.range 78 78) (.seq (.range 79 79) (.range 84 84))))),
+  (9, (.alt (.seq (.range 97 97) (.seq (.range 110 110) (.range 100 100))) (.seq (.range 111 111) (.range 114 114)))),
+  (10, (.alt (.seq (.range 116 116) (.seq (.range 114 114) (.seq (.range 117 117) (.range 101 101)))) (.seq (.range 102 102) (.seq (.range 97 97) (.seq (.range 108 108) (.seq (.range 115 115) (.range 101 101))))))),
+  (11, (.seq (.range 110 110) (.seq (.range 117 117) (.seq (.range 108 108) (.range 108 108))))),
+  (12, (.alt (.seq (.range 73 73) (.range 78 78)) (.seq (.range 105 105) (.range 110 110)))),
+  (13, (.alt (.seq (.range 101 101) (.range 113 113)) (.alt (.seq (.range 69 69) (.range 81 81)) (.seq (.range 61 61) (.range 61 61))))),
+  (14, (.alt (.seq (.range 110 110) (.range 101 101)) (.alt (.seq (.range 78 78) (.range 69 69)) (.seq (.range 33 33) (.range 61 61))))),
+  (15, (.alt (.seq (.range 103 103) (.range 116 116)) (.alt (.seq (.range 71 71) (.range 84 84)) (.range 62 62)))),
+  (16, (.alt (.seq (.range 108 108) (.range 116 116)) (.alt (.seq (.range 76 76) (.range 84 84)) (.range 60 60)))),
+  (17, (.alt (.seq (.range 103 103) (.range 101 101)) (.alt (.seq (.range 71 71) (.range 69 69)) (.seq (.range 62 62) (.range 61 61))))),
+  (18, (.alt (.seq (.range 108 108) (.range 101 101)) (.alt (.seq (.range 76 76) (.range 69 69)) (.seq (.range 60 60) (.range 61 61))))),
+  (19, (.alt (.seq (.range 99 99) (.range 111 111)) (.seq (.range 67 67) (.range 79 79)))),
+  (20, (.alt (.seq (.range 115 115) (.range 119 119)) (.seq (.range 83 83) (.range 87 87)))),
+  (21, (.alt (.seq (.range 101 101) (.range 119 119)) (.seq (.range 69 69) (.range 87 87)))),
+  (22, (.seq (.alt (.range 65 90) (.range 97 122)) (.star (.alt (.range 45 45) (.alt (.range 95 95) (.alt (.range 58 58) (.alt (.range 48 57) (.alt (.range 65 90) (.range 97 122))))))))),
+  (23, (.seq (.alt (.range 48 48) (.seq (.range 49 57) (.star (.range 48 57)))) (.seq (.range 46 46) (.seq (.alt (.range 48 48) (.seq (.range 49 57) (.star (.range 48 57)))) (.seq (.range 46 46) (.alt (.range 48 48) (.seq (.range 49 57) (.star (.range 48 57))))))))),
+  (24, (.seq (.range 34 34) (.seq (.star (.alt (.seq (.range 92 92) (.alt (.alt (.range 34 34) (.alt (.range 92 92) (.alt (.range 47 47) (.alt (.range 98 98) (.alt (.range 102 102) (.alt (.range 110 110) (.alt (.range 114 114) (.range 116 116)))))))) (.seq (.range 117 117) (.seq (.alt (.range 48 57) (.alt (.range 97 102) (.range 65 70))) (.seq (.alt (.range 48 57) (.alt (.range 97 102) (.range 65 70))) (.seq (.alt (.range 48 57) (.alt (.range 97 102) (.range 65 70))) (.alt (.range 48 57) (.alt (.range 97 102) (.range 65 70))))))))) (.notIn [34, 92]))) (.range 34 34)))),
+  (25, (.seq (.alt (.range 45 45) .eps) (.seq (.alt (.range 48 48) (.seq (.range 49 57) (.star (.range 48 57)))) (.seq (.range 46 46) (.seq (.seq (.range 48 57) (.star (.range 48 57))) (.alt (.seq (.alt (.range 69 69) (.range 101 101)) (.seq (.alt (.alt (.range 43 43) (.range 45 45)) .eps) (.alt (.range 48 48) (.seq (.range 49 57) (.star (.range 48 57)))))) .eps)))))),
+  (26, (.alt (.range 48 48) (.seq (.range 49 57) (.star (.range 48 57))))),
+  (27, (.seq (.alt (.range 69 69) (.range 101 101)) (.seq (.alt (.alt (.range 43 43) (.range 45 45)) .eps) (.alt (.range 48 48) (.seq (.range 49 57) (.star (.range 48 57))))))),
+  (28, (.range 10 10)),
+  (29, (.seq (.range 44 44) (.star (.range 32 32)))),
+  (30, (.seq (.range 32 32) (.star (.range 10 10))))]
+
+namespace Expected
+def lexerRuleNames : List String := ["'('", "')'", "'pr'", "'.'", "'-'", "'['", "']'", "NOT", "LOGICAL_OPERATOR", "BOOLEAN", "NULL", "IN", "EQ", "NE", "GT", "LT", "GE", "LE", "CO", "SW", "EW", "ATTRNAME", "VERSION", "STRING", "DOUBLE", "INT", "EXP", "NEWLINE", "COMMA", "SP"]
+
+def parserRules : List String := [
+  "query : NOT? SP? \"(\" SP? query SP? \")\" #parenExp | query SP LOGICAL_OPERATOR SP query #logicalExp | attrPath SP \"pr\" #presentExp | attrPath SP op=(EQ | NE | GT | LT | GE | LE | CO | SW | EW | IN) SP value #compareExp",
+  "attrPath : ATTRNAME subAttr?",
+  "subAttr : \".\" attrPath",
+  "value : BOOLEAN #boolean | NULL #null | VERSION #version | STRING #string | DOUBLE #double | \"-\"? INT EXP? #long | listInts #listOfInts | listDoubles #listOfDoubles | listStrings #listOfStrings",
+  "listStrings : \"[\" subListOfStrings",
+  "subListOfStrings : STRING COMMA subListOfStrings | STRING \"]\"",
+  "listDoubles : \"[\" subListOfDoubles",
+  "subListOfDoubles : DOUBLE COMMA subListOfDoubles | DOUBLE \"]\"",
+  "listInts : \"[\" subListOfInts",
+  "subListOfInts : INT COMMA subListOfInts | INT \"]\""]
+
+def spellings : List (String × List String) := [
+  ("'('", ["("]),
+  ("')'", [")"]),
+  ("'pr'", ["pr"]),
+  ("'.'", ["."]),
+  ("'-'", ["-"]),
+  ("'['", ["["]),
+  ("']'", ["]"]),
+  ("NOT", ["not", "NOT"]),
+  ("LOGICAL_OPERATOR", ["and", "or"]),
+  ("BOOLEAN", ["true", "false"]),
+  ("NULL", ["null"]),
+  ("IN", ["IN", "in"]),
+  ("EQ", ["eq", "EQ", "=="]),
+  ("NE", ["ne", "NE", "!="]),
+  ("GT", ["gt", "GT", ">"]),
+  ("LT", ["lt", "LT", "<"]),
+  ("GE", ["ge", "GE", ">="]),
+  ("LE", ["le", "LE", "<="]),
+  ("CO", ["co", "CO"]),
+  ("SW", ["sw", "SW"]),
+  ("EW", ["ew", "EW"]),
+  ("NEWLINE", ["\n"])]
+
+def tokenConsts : List (String × String) := [("T__0", "1"),
+  ("T__1", "2"),
+  ("T__2", "3"),
+  ("T__3", "4"),
+  ("T__4", "5"),
+  ("T__5", "6"),
+  ("T__6", "7"),
+  ("NOT", "8"),
+  ("LOGICAL_OPERATOR", "9"),
+  ("BOOLEAN", "10"),
+  ("NULL", "11"),
+  ("IN", "12"),
+  ("EQ", "13"),
+  ("NE", "14"),
+  ("GT", "15"),
+  ("LT", "16"),
+  ("GE", "17"),
+  ("LE", "18"),
+  ("CO", "19"),
+  ("SW", "20"),
+  ("EW", "21"),
+  ("ATTRNAME", "22"),
+  ("VERSION", "23"),
+  ("STRING", "24"),
+  ("DOUBLE", "25"),
+  ("INT", "26"),
+  ("EXP", "27"),
+  ("NEWLINE", "28"),
+  ("COMMA", "29"),
+  ("SP", "30")]
+
+def lexerConsts : List (String × String) := [("T__0", "1"),
+  ("T__1", "2"),
+  ("T__2", "3"),
+  ("T__3", "4"),
+  ("T__4", "5"),
+  ("T__5", "6"),
+  ("T__6", "7"),
+  ("NOT", "8"),
+  ("LOGICAL_OPERATOR", "9"),
+  ("BOOLEAN", "10"),
+  ("NULL", "11"),
+  ("IN", "12"),
+  ("EQ", "13"),
+  ("NE", "14"),
+  ("GT", "15"),
+  ("LT", "16"),
+  ("GE", "17"),
+  ("LE", "18"),
+  ("CO", "19"),
+  ("SW", "20"),
+  ("EW", "21"),
+  ("ATTRNAME", "22"),
+  ("VERSION", "23"),
+  ("STRING", "24"),
+  ("DOUBLE", "25"),
+  ("INT", "26"),
+  ("EXP", "27"),
+  ("NEWLINE", "28"),
+  ("COMMA", "29"),
+  ("SP", "30")]
+
+def opTable : List (String × String) := [("NullOperation.EQ", "isnil"),
+  ("NullOperation.NE", "notnil"),
+  ("NullOperation.GT", "invalid"),
+  ("NullOperation.LT", "invalid"),
+  ("NullOperation.GE", "invalid"),
+  ("NullOperation.LE", "invalid"),
+  ("NullOperation.CO", "invalid"),
+  ("NullOperation.SW", "invalid"),
+  ("NullOperation.EW", "invalid"),
+  ("NullOperation.IN", "invalid"),
+  ("BoolOperation.EQ", "rel(==);propagate"),
+  ("BoolOperation.NE", "rel(!=);propagate"),
+  ("BoolOperation.GT", "inherit:NullOperation"),
+  ("BoolOperation.LT", "inherit:NullOperation"),
+  ("BoolOperation.GE", "inherit:NullOperation"),
+  ("BoolOperation.LE", "inherit:NullOperation"),
+  ("BoolOperation.CO", "inherit:NullOperation"),
+  ("BoolOperation.SW", "inherit:NullOperation"),
+  ("BoolOperation.EW", "inherit:NullOperation"),
+  ("BoolOperation.IN", "inherit:NullOperation"),
+  ("IntOperation.EQ", "fdel;rel(==);propagate"),
+  ("IntOperation.NE", "fdel;rel(!=);propagate"),
+  ("IntOperation.GT", "fdel;rel(>);propagate"),
+  ("IntOperation.LT", "fdel;rel(<);propagate"),
+  ("IntOperation.GE", "fdel;rel(>=);propagate"),
+  ("IntOperation.LE", "fdel;rel(<=);propagate"),
+  ("IntOperation.CO", "inherit:NullOperation"),
+  ("IntOperation.SW", "inherit:NullOperation"),
+  ("IntOperation.EW", "inherit:NullOperation"),
+  ("IntOperation.IN", "as-modelled:IntOperation.IN"),
+  ("FloatOperation.EQ", "rel(==);propagate"),
+  ("FloatOperation.NE", "rel(!=);propagate"),
+  ("FloatOperation.GT", "rel(>);propagate"),
+  ("FloatOperation.LT", "rel(<);propagate"),
+  ("FloatOperation.GE", "rel(>=);propagate"),
+  ("FloatOperation.LE", "rel(<=);propagate"),
+  ("FloatOperation.CO", "inherit:NullOperation"),
+  ("FloatOperation.SW", "inherit:NullOperation"),
+  ("FloatOperation.EW", "inherit:NullOperation"),
+  ("FloatOperation.IN", "as-modelled:FloatOperation.IN"),
+  ("StringOperation.EQ", "rel(==);propagate"),
+  ("StringOperation.NE", "rel(!=);propagate"),
+  ("StringOperation.GT", "rel(>);propagate"),
+  ("StringOperation.LT", "rel(<);propagate"),
+  ("StringOperation.GE", "rel(>=);propagate"),
+  ("StringOperation.LE", "rel(<=);propagate"),
+  ("StringOperation.CO", "rel(Contains);propagate"),
+  ("StringOperation.SW", "rel(HasPrefix);propagate"),
+  ("StringOperation.EW", "rel(HasSuffix);propagate"),
+  ("StringOperation.IN", "as-modelled:StringOperation.IN"),
+  ("VersionOperation.EQ", "rel(semver.EQ);propagate"),
+  ("VersionOperation.NE", "rel(semver.NE);propagate"),
+  ("VersionOperation.GT", "rel(semver.GT);propagate"),
+  ("VersionOperation.LT", "rel(semver.LT);propagate"),
+  ("VersionOperation.GE", "rel(semver.GE);propagate"),
+  ("VersionOperation.LE", "rel(semver.LE);propagate"),
+  ("VersionOperation.CO", "inherit:NullOperation"),
+  ("VersionOperation.SW", "inherit:NullOperation"),
+  ("VersionOperation.EW", "inherit:NullOperation"),
+  ("VersionOperation.IN", "inherit:NullOperation")]
+
+def dispatch : List (String × String) := [("EQ", "EQ"),
+  ("NE", "NE"),
+  ("GT", "GT"),
+  ("LT", "LT"),
+  ("LE", "LE"),
+  ("GE", "GE"),
+  ("CO", "CO"),
+  ("SW", "SW"),
+  ("EW", "EW"),
+  ("IN", "IN")]
+
+def litOps : List (String × String) := [("VisitBoolean", "BoolOperation"),
+  ("VisitDouble", "FloatOperation"),
+  ("VisitListOfDoubles", "FloatOperation"),
+  ("VisitListOfInts", "IntOperation"),
+  ("VisitListOfStrings", "StringOperation"),
+  ("VisitLong", "IntOperation"),
+  ("VisitNull", "NullOperation"),
+  ("VisitString", "StringOperation"),
+  ("VisitVersion", "VersionOperation")]
+
+def coercions : List (String × String) := [("toInt", "as-modelled:toInt"),
+  ("toFloat", "as-modelled:toFloat"),
+  ("StringOperation.getString", "as-modelled:StringOperation.getString"),
+  ("IntOperation.get", "as-modelled:IntOperation.get"),
+  ("FloatOperation.get", "as-modelled:FloatOperation.get"),
+  ("BoolOperation.get", "as-modelled:BoolOperation.get"),
+  ("StringOperation.get", "as-modelled:StringOperation.get"),
+  ("VersionOperation.get", "as-modelled:VersionOperation.get"),
+  ("getString", "as-modelled:getString"),
+  ("JsonQueryVisitorImpl.VisitAttrPath", "as-modelled:JsonQueryVisitorImpl.VisitAttrPath"),
+  ("JsonQueryVisitorImpl.VisitLogicalExp", "as-modelled:JsonQueryVisitorImpl.VisitLogicalExp"),
+  ("JsonQueryVisitorImpl.VisitParenExp", "as-modelled:JsonQueryVisitorImpl.VisitParenExp"),
+  ("JsonQueryVisitorImpl.VisitPresentExp", "as-modelled:JsonQueryVisitorImpl.VisitPresentExp"),
+  ("JsonQueryVisitorImpl.Visit", "as-modelled:JsonQueryVisitorImpl.Visit"),
+  ("NewEvaluator", "as-modelled:NewEvaluator"),
+  ("Evaluator.Process", "as-modelled:Evaluator.Process"),
+  ("Evaluator.Reset", "as-modelled:Evaluator.Reset"),
+  ("Evaluator.LastDebugErr", "as-modelled:Evaluator.LastDebugErr"),
+  ("Evaluate", "as-modelled:Evaluate"),
+  ("root.Evaluate", "as-modelled:root.Evaluate"),
+  ("IntOperation.IN", "as-modelled:IntOperation.IN"),
+  ("FloatOperation.IN", "as-modelled:FloatOperation.IN"),
+  ("StringOperation.IN", "as-modelled:StringOperation.IN"),
+  ("JsonQueryVisitorImpl.VisitCompareExp", "as-modelled:JsonQueryVisitorImpl.VisitCompareExp"),
+  ("NestedError.Error", "as-modelled:NestedError.Error"),
+  ("NestedError.Set", "as-modelled:NestedError.Set"),
+  ("NestedError.Original", "as-modelled:NestedError.Original"),
+  ("ErrInvalidOperand.Error", "as-modelled:ErrInvalidOperand.Error")]
+
+def pkgVars : List String := ["parser/ErrEvalOperandMissing", "parser/ErrInvalidOperation"]
+
+def observers : List String := ["*CompareExpContext", "*ErrInvalidOperand", "*LogicalExpContext", "*NestedError", "*ParenExpContext", "*PresentExpContext", "[]float64", "[]int", "[]string", "bool", "float64", "fmt.Stringer", "int", "int32", "int64", "map[string]interface{}", "string"]
+
+def goStmts : Nat := 0
+def syncUses : List String := []
+def reflectUses : List String := []
+end Expected
 
 def kinds (s : String) : Option (List Kind) := (lex jqRules s.toList).map (·.map (·.kind))
 
@@ -46,6 +280,7 @@ example : kinds "x ~ 1" = none := by decide +kernel
 example : (List.range 26).all (fun i => sepOK jqRules (97 + i) 32 && sepOK jqRules (65 + i) 32
     && sepOK jqRules (97 + i) 46 && sepOK jqRules (65 + i) 46 && sepOK jqRules (97 + i) 41 && sepOK jqRules (97 + i) 40) = true := by
   decide +kernel
+
 
 
 end Rules
